@@ -56,8 +56,38 @@ def judge(before, after, active_before, active_after, old, new, res):
     return probs
 
 
+def _h(b):
+    return b.hex() or "e"
+
+
+def ren_request(before, abefore, fault, old, new):
+    """the same call on the abstract walk of Model/Rename.lean (driver op `ren`)"""
+    return "ren old=%s new=%s active=%s scripts=%s faults=%s" % (
+        _h(old), _h(new), "-" if abefore is None else _h(abefore),
+        ";".join("%s:%s" % (_h(n), _h(c)) for n, c in before.items()) or "-",
+        ("%s:%s" % fault) if fault else "-")
+
+
+def ren_canon(res, scripts, active):
+    """result, active script, names in listing order with their content line by line (line ends aside)"""
+    return "res=%s active=%s scripts=%s" % (res, "-" if active is None else _h(active),
+                                            ";".join("%s:%s" % (_h(n), _h(b"\n".join(norm(c)))) for n, c in scripts.items()) or "-")
+
+
+def ren_parse(line):
+    f = dict(x.split("=", 1) for x in line.split(" ") if "=" in x)
+    sc = {}
+    if f.get("scripts", "-") != "-":
+        for e in f["scripts"].split(";"):
+            n, c = e.split(":")
+            sc[bytes.fromhex(n) if n != "e" else b""] = bytes.fromhex(c) if c != "e" else b""
+    act = None if f.get("active", "-") == "-" else (bytes.fromhex(f["active"]) if f["active"] != "e" else b"")
+    return ren_canon(f.get("res", "?"), sc, act)
+
+
 def run(ctx):
     r = rng("c14")
+    ren_reqs, ren_impl, ren_what = [], [], []
     viol, lines, expect = [], [], []
     evals = nontriv = 0
     samples = []
@@ -98,6 +128,9 @@ def run(ctx):
             nontriv += 1 if o != "absent" else 0
             res = out.split(" ")[0][4:]
             res = "crash" if res.startswith("crash") else res
+            ren_reqs.append(ren_request(before, abefore, fault, old, new))
+            ren_impl.append(ren_canon(res, srv.scripts, srv.active))
+            ren_what.append("old=%s new=%s bystander=%s fault=%s" % (o, n, by, fault))
             for p in judge(before, dict(srv.scripts), abefore, srv.active, old, new, res):
                 viol.append({"state": "old=%s new=%s bystander=%s" % (o, n, by), "fault": fault, "what": p, "result": out[:80],
                              "before": {k.decode(): v.decode("latin-1") for k, v in before.items()}, "after": {k.decode(): v.decode("latin-1") for k, v in srv.scripts.items()}})
@@ -129,6 +162,9 @@ def run(ctx):
                 nontriv += 1
                 res = out.split(" ")[0][4:]
                 res = "crash" if res.startswith("crash") else res
+                ren_reqs.append(ren_request(before, abefore, fault, old, old))
+                ren_impl.append(ren_canon(res, srv.scripts, srv.active))
+                ren_what.append("self-rename old=%s bystander=%s fault=%s" % (o, by, fault))
                 for p in judge(before, dict(srv.scripts), abefore, srv.active, old, old, res):
                     viol.append({"state": "self-rename old=%s bystander=%s" % (o, by), "fault": fault, "what": p, "result": out[:80],
                                  "before": {k.decode(): v.decode("latin-1") for k, v in before.items()}, "after": {k.decode(): v.decode("latin-1") for k, v in srv.scripts.items()}})
@@ -163,6 +199,9 @@ def run(ctx):
             nontriv += 1 if o != "absent" else 0
             res = out.split(" ")[0][4:]
             res = "crash" if res.startswith("crash") else res
+            ren_reqs.append(ren_request(before, abefore, None, old_, new_))
+            ren_impl.append(ren_canon(res, srv.scripts, srv.active))
+            ren_what.append("names %r→%r old=%s new=%s bystander=%s literal-listing=%s" % (old_, new_, o, n, by, lit))
             for p in judge(before, dict(srv.scripts), abefore, srv.active, old_, new_, res):
                 viol.append({"state": "names %r→%r old=%s new=%s bystander=%s literal-listing=%s" % (old_, new_, o, n, by, lit), "fault": None, "what": p, "result": out[:80],
                              "before": {k.decode(): v.decode("latin-1") for k, v in before.items()}, "after": {k.decode(): v.decode("latin-1") for k, v in srv.scripts.items()}})
@@ -199,11 +238,18 @@ def run(ctx):
             nontriv += 1 if o != "absent" else 0
             res = out.split(" ")[0][4:]
             res = "crash" if res.startswith("crash") else res
+            ren_reqs.append(ren_request(before, abefore, None, old, new))
+            ren_impl.append(ren_canon(res, srv.scripts, srv.active))
+            ren_what.append("marker %r old=%s new=%s bystander=%s" % (marker, o, n, by))
             for p in judge(before, dict(srv.scripts), abefore, srv.active, old, new, res):
                 viol.append({"state": "marker %r old=%s new=%s bystander=%s" % (marker, o, n, by), "fault": None, "what": p, "result": out[:80],
                              "before": {k.decode(): v.decode("latin-1") for k, v in before.items()}, "after": {k.decode(): v.decode("latin-1") for k, v in srv.scripts.items()}})
     model = run_driver(lines, live_table=False)
     diffs = [{"suite": "client", "request": l[:300], "impl": e[:300], "model": m[:300]} for l, e, m in zip(lines, expect, model) if e != m]
+    # the abstract walk (the object of `emulated_rename_is_safe`) against what the real client did to the reference server's store
+    ren_model = [ren_parse(x) for x in run_driver(ren_reqs, live_table=False)]
+    diffs += [{"suite": "rename-store", "case": w, "request": q[:300], "impl": a[:300], "model": m[:300]}
+              for w, q, a, m in zip(ren_what, ren_reqs, ren_impl, ren_model) if a != m]
     seen, uv = set(), []
     for v in viol:
         k = (v.get("state"), str(v.get("fault")), v["what"])
@@ -212,7 +258,7 @@ def run(ctx):
             uv.append(v)
     fresh, known = split_known("C14", uv, lambda f, v: False)
     return {"evaluations": evals, "distinct_nontrivial": nontriv, "rule": RULE, "samples": samples,
-            "suites": {"client": {"states": len(states), "fault_placements": len(faults)}}, "diffs": diffs, "violations": fresh, "known": known}
+            "suites": {"rename-store": {"cases": len(ren_reqs)}, "client": {"states": len(states), "fault_placements": len(faults)}}, "diffs": diffs, "violations": fresh, "known": known}
 
 
 def replay(ctx, payload):
